@@ -293,12 +293,41 @@ def gen_cfg(rng, kind, v):
     return [v, 16, 0, th, hm, 0, NKEYS, LOOP_FUEL]
 
 
+def gen_crowded(rng, kind, v, nthreads):
+    """cuckoo: every key has the same table-1 probe set and the tables start with two buckets, the threads mostly
+    insert distinct keys: relocation rounds that end in 'all probe sets are full', the relocation limit and
+    resizes under contention.  Table 0 still spreads the keys (no C17 drop)."""
+    cfg = gen_cfg(rng, kind, v)
+    cfg[1] = 2
+    cfg[3] = 1
+    cfg[5] = rng.choice([5, 6, 7])
+    codes = ops_for(kind, v)
+    ins = [1, 2, 3, 9] if 9 in codes else [1, 2, 3]
+    keys = list(range(NKEYS))
+    for i in range(len(keys) - 1, 0, -1):
+        j = rng.below(i + 1)
+        keys[i], keys[j] = keys[j], keys[i]
+    threads = [[] for _ in range(nthreads)]
+    for i, k in enumerate(keys):
+        t = i % nthreads
+        threads[t].append([rng.choice(ins), k, 10 * (t + 1) + len(threads[t]) + 1, 1])
+    for t in range(nthreads):
+        if rng.chance(1, 2):
+            threads[t].insert(1 + rng.below(len(threads[t])), [rng.choice(codes), rng.below(NKEYS), 10 * (t + 1) + 9, 1])
+    return cfg, threads
+
+
 def gen_cases(rng, name, n, tag):
     src, grp, kind, variants = EXES[name]
     cases = []
     for i in range(n):
         v = variants[i % len(variants)] if i < len(variants) * 2 else rng.choice(variants)
         nthreads = 2 if rng.chance(2, 3) else 3
+        if kind.startswith("cuckoo") and i % 4 == 3:
+            cfg, threads = gen_crowded(rng, kind, v, nthreads)
+            cases.append({"id": "%s_%s%d" % (name, tag, i), "cfg": cfg, "threads": threads,
+                          "sched": gen_sched(rng, nthreads, 160), "exe": name})
+            continue
         threads = gen_program(rng, kind, v, nthreads, 4 if nthreads == 2 else 3)
         cases.append({"id": "%s_%s%d" % (name, tag, i), "cfg": gen_cfg(rng, kind, v), "threads": threads,
                       "sched": gen_sched(rng, nthreads, 120), "exe": name})
